@@ -86,6 +86,8 @@ def compare(run, mlines, merr):
     io = impl_outcome(run)
     if io["kind"] in ("compile-fail", "prepare-fail 1", "prepare-fail"):
         return "no-run", io["kind"]
+    if io["kind"] == "timeout":
+        return "impl-timeout", "the implementation run exceeded its time limit (not compared)"
     if not any(l.startswith("compile ") for l in run["lines"]):
         return "compile-crash", io["kind"] + " " + run["err"][-300:]
     dv = [l for l in mlines if l.startswith("DIVERGE")]
